@@ -9,6 +9,8 @@
 //	(c) tamper.go   — every single-bit flip of every stored v2 key ring (v1 key file) is rejected on read, and so is
 //	                  every byte-VALUE change of every stored v2 key ring (der.go: the values that matter to a DER
 //	                  reader in the quick tier, all 255 other values in the thorough tier);
+//	                  the same modifications (plus truncation / extension / swap / replay of an older version) made
+//	                  behind handles that are already open and warm, which then go on being used (warm.go, warm_v1.go);
 //	(d) confine.go  — hostile client ids / ring paths never make a keystore touch anything outside its root;
 //	(e) secrets.go  — created key files are 0600, directories 0700.
 //
@@ -198,7 +200,7 @@ func Run(r *ev.Run) {
 	r.Rule = "one evaluation = one oracle evaluation: one blob scanned for known secrets, one relocated file loaded, one single-bit flip or single-byte value change read back, one keystore/back-end call with a hostile id or path checked for effects outside the root, one created file/directory mode checked. " +
 		"Ring-level key-state histories (v2, oracle a): per history three rings (key pairs, symmetric keys, keys with both) of ten harness-supplied keys each, every key walked along a random legal path (api.KeyStateTransitionValid) to one of the states pre-active, active (directly and through suspended), suspended, deactivated, compromised, destroyed by SetState from each state that allows it, destroyed by DestroyKey; then ExportKeyRings (private / public-only), ImportKeyRings into an empty keystore and back into the same one (overwrite), KeyBackuper.Export/Import; every Put / Get / stored object / bundle scanned for the material of all keys. " +
 		"Distinct classes: (format/configuration, oracle, key kind or storage operation, sink / file role / flipped region / hostile-id class). " +
-		"Flips: quick = every byte of every stored key ring and v1 key file, one bit per byte (bit index = (offset+seed) mod 8); thorough = all 8 bits. Byte values (v2 key rings, every offset): quick = value-1, value+1, value/2, each of 0x10..0x1f where the stored byte is 0x20, 0, 0x7f, 0x80, 0x81, 0xff (values equal to the stored byte skipped, duplicates removed, so the count depends on the stored bytes); thorough = all 255 other values (the directory store once more with the quick set through real file rewrites); classes of this sweep: (configuration, key kind, DER element of the changed byte, tag/length/content). Everything is a pure function of VERIF_SEED except key values, which are only compared after reading them back."
+		"Flips: quick = every byte of every stored key ring and v1 key file, one bit per byte (bit index = (offset+seed) mod 8); thorough = all 8 bits. Byte values (v2 key rings, every offset): quick = value-1, value+1, value/2, each of 0x10..0x1f where the stored byte is 0x20, 0, 0x7f, 0x80, 0x81, 0xff (values equal to the stored byte skipped, duplicates removed, so the count depends on the stored bytes); thorough = all 255 other values (the directory store once more with the quick set through real file rewrites); classes of this sweep: (configuration, key kind, DER element of the changed byte, tag/length/content). Tampering under handles that are already open (warm): per v2 back end a keystore handle that generated, read and destroyed keys, and per ring a read-write and a read-only ring handle that have been read and used for AddKey/SetState/SetCurrent/DestroyKey; then the stored ring is modified behind them (bit flips and DER-relevant byte values at one position per DER element plus every 29th/97th offset (thorough: every / every 4th offset), 8 truncations, 7 extensions, the stored bytes of 3 (thorough: all) other rings swapped in, 4 older valid versions replayed) and the same handles are used on: key reads, the four ring updates (order rotating), keystore getters / export / generate / destroy, then a handle opened afterwards; a positive-control update through the warm handle on restored storage every 12 cases. v1: per cache configuration a handle that generated and read every key, then current and newest rotated private-side files modified on disk (every 9th offset, cache off every 19th; thorough every offset; 4 truncations, 3 extensions, another owner's file, the other version of the same key), reads of current / all keys / export by id through the warm and a later handle, and update cases (rotate, destroy rotated, destroy current through the warm handle while a file is modified, then the reads again). Classes of this layer: (configuration, key kind or file role, mutation, region). Everything is a pure function of VERIF_SEED except key values, which are only compared after reading them back."
 	r.Assumptions = []string{
 		"crypto library replaced by the pure-Go gothemis stand-in (contract level: Secure Cell Seal authenticates data and context)",
 		"Redis storage / Redis back end not driven",
@@ -212,11 +214,22 @@ func Run(r *ev.Run) {
 		r.Violation("non-vacuity:secret-scanner-selftest", "the secret scanner does not find a planted key in raw/hex/base64 form")
 		return
 	}
+	if os.Getenv("C07_ONLY") == "warm" { // development aid: only the warm-handle layer (the guards of the other layers then fail)
+		runWarm(r)
+		return
+	}
+	// the warm-handle layer of oracle (c) works on stores of its own: it runs beside the other layers (one more goroutine)
+	warmDone := make(chan struct{})
+	go func() {
+		defer close(warmDone)
+		runWarm(r)
+	}()
 	runSecrets(r)
 	runRingStates(r)
 	runBinding(r)
 	runTamper(r)
 	runConfinement(r)
+	<-warmDone
 
 	q := func(quick, thorough int64) int64 {
 		if r.Thorough() {
@@ -260,6 +273,31 @@ func Run(r *ev.Run) {
 	r.RequireAtLeast("c_byte_values_checked_v2_signature_value_length_byte", q(18*20, 27*250))
 	r.RequireAtLeast("c_length_bytes_0x20_lowered_to_0x10..0x1f_v2", q(16*18, 16*27))
 	r.RequireSetAtLeast("c_byte_value_fields_v2", 30)
+	// warm handles (warm.go, warm_v1.go)
+	r.RequireAtLeast("w_v2_cases", q(1000, 15000))
+	r.RequireAtLeast("w_v2_ops_checked", q(25000, 400000))
+	for _, op := range []string{"AddKey", "SetState", "SetCurrent", "DestroyKey"} {
+		r.RequireAtLeast("w_v2_updates_failed_op="+op+" handle=ring-rw", q(800, 15000))
+	}
+	r.RequireAtLeast("w_v2_updates_failed_op=generate(rotate) handle=keystore", q(800, 15000))
+	r.RequireAtLeast("w_v2_positive_controls(update through the warm handle on untampered storage succeeds)", q(150, 1500))
+	r.RequireAtLeast("w_v2_reads_served_from_the_handle's_own_data(genuine material, not judged)", q(5000, 100000))
+	r.RequireAtLeast("w_v2_cases_region=signed-payload", q(500, 10000))
+	r.RequireAtLeast("w_v2_cases_region=signatures", q(100, 1000))
+	r.RequireAtLeast("w_v2_cases_region=container-header", q(10, 80))
+	r.RequireAtLeast("w_v2_cases_mutation=truncate", q(100, 100))
+	r.RequireAtLeast("w_v2_cases_mutation=extend", q(100, 100))
+	r.RequireAtLeast("w_v2_cases_mutation=swap-with-another-ring", q(50, 100))
+	r.RequireAtLeast("w_v2_cases_mutation=replay-older-version", q(30, 30))
+	r.RequireSetAtLeast("w_v2_rings", 18)
+	r.RequireSetAtLeast("w_v2_mutations", 20)
+	r.RequireSetAtLeast("w_v2_fields_modified", 30)
+	r.RequireAtLeast("w_v1_cases", q(600, 5000))
+	r.RequireAtLeast("w_v1_ops_checked", q(2500, 20000))
+	r.RequireAtLeast("w_v1_reads_served_without_reading_the_modified_file handle=keystore", q(300, 2000)) // the cached handles really serve from their cache
+	r.RequireAtLeast("w_v1_update_cases", q(60, 60))
+	r.RequireSetAtLeast("w_v1_files", 30)
+	r.RequireSetAtLeast("w_v1_mutations", 12)
 	r.RequireAtLeast("d_hostile_calls_checked_v1", q(100, 100))
 	r.RequireAtLeast("d_hostile_calls_checked_v2_keystore", q(100, 100))
 	r.RequireAtLeast("d_hostile_calls_checked_v2_backend", q(50, 50))
